@@ -54,6 +54,13 @@ pub struct KCase {
     /// costs are a function of the edge alone (Bellman–Ford oracle applies)
     pub bf_ok: bool,
     pub label: &'static str,
+    /// the `[algorithm]` section the algorithm is deserialised from (the application's path,
+    /// `get_config_serde`); None = the enum is constructed directly from the fields above
+    pub cfg: Option<serde_json::Value>,
+    /// what the generator knows about `cfg`: Some(true) well-formed, Some(false) malformed
+    pub cfg_ok: Option<bool>,
+    /// a `weight_factor` written into the query as arbitrary JSON (overrides `base.query_wf`)
+    pub query_wf_json: Option<serde_json::Value>,
 }
 
 fn sim_real(s: &Sim) -> RouteSimilarityFunction {
@@ -79,7 +86,25 @@ fn underlying(c: &SCase) -> SearchAlgorithm {
     }
 }
 
-fn make_alg(kc: &KCase, sim: &Option<Sim>) -> SearchAlgorithm {
+fn make_alg(kc: &KCase, sim: &Option<Sim>) -> Result<SearchAlgorithm, String> {
+    if let Some(cfg) = &kc.cfg {
+        // the application's path: `config_json.get_config_serde(&CompassConfigurationField::Algorithm, &"TOML")`
+        use routee_compass::app::compass::config::compass_configuration_field::CompassConfigurationField;
+        use routee_compass::app::compass::config::config_json_extension::ConfigJsonExtensions;
+        let mut cfg = cfg.clone();
+        // (the AcceptAll twin of a threshold case: same configuration, similarity replaced)
+        if let (Some(Sim::AcceptAll), Some(o)) = (sim, cfg.as_object_mut()) {
+            if kc.sim.as_ref() != Some(&Sim::AcceptAll) {
+                o.insert("similarity".into(), serde_json::json!({"type": "accept_all"}));
+            }
+        }
+        let root = serde_json::json!({ "algorithm": cfg });
+        return root.get_config_serde::<SearchAlgorithm>(&CompassConfigurationField::Algorithm, &"TOML").map_err(|e| e.to_string());
+    }
+    Ok(make_alg_direct(kc, sim))
+}
+
+fn make_alg_direct(kc: &KCase, sim: &Option<Sim>) -> SearchAlgorithm {
     let similarity = sim.as_ref().map(sim_real);
     let termination = kc.term.as_ref().map(term_real);
     if kc.yen {
@@ -105,6 +130,139 @@ fn inner_source(c: &SCase) -> usize {
     }
 }
 
+/// the algorithm tags of the configuration, outermost first (object form only; the generator nests
+/// in object form)
+fn cfg_tags(kc: &KCase) -> Vec<String> {
+    let mut out = vec![];
+    let mut cur = kc.cfg.as_ref();
+    while let Some(v) = cur {
+        match v.get("type").and_then(|t| t.as_str()) {
+            Some(t) => out.push(t.to_string()),
+            None => break,
+        }
+        cur = v.get("underlying");
+    }
+    out
+}
+
+/// the k-shortest-paths algorithm that actually runs the searches: the innermost one
+fn innermost_is_yen(kc: &KCase) -> bool {
+    let tags: Vec<String> = cfg_tags(kc).into_iter().filter(|t| t == "yens" || t == "ksp_single_via").collect();
+    match tags.last() {
+        Some(t) => t == "yens",
+        None => kc.yen,
+    }
+}
+
+/// Yen's algorithm runs somewhere in this case: child process
+fn uses_yen(kc: &KCase) -> bool {
+    kc.yen || cfg_tags(kc).iter().any(|t| t == "yens")
+}
+
+fn is_nested(kc: &KCase) -> bool {
+    cfg_tags(kc).iter().filter(|t| *t == "yens" || *t == "ksp_single_via").count() >= 2
+}
+
+/// append the final pop of reached targets to the recorded schedules
+fn fix_scheds(kc: &KCase, ex: &mut KExec) {
+    if innermost_is_yen(kc) {
+        let c = &kc.base;
+        let s = inner_source(c);
+        if let Some(t) = inner_target(c) {
+            for (i, sc) in ex.scheds.iter_mut().enumerate() {
+                if !(i == 0 && s == t) {
+                    sc.push(t);
+                }
+            }
+        }
+    } else {
+        fix_scheds_single_via(kc, ex);
+    }
+}
+
+/// an `underlying` k-shortest-paths algorithm configured with k = 0 (and no k in the query) returns no
+/// route, so the algorithm above it has nothing to start from: no route (vertex-oriented) or "no path"
+/// (edge-oriented) is then what the configuration asks for, not a failure of the property
+fn nested_returns_nothing(kc: &KCase) -> bool {
+    if !is_nested(kc) || kc.query_k.is_some() {
+        return false;
+    }
+    let mut cur = kc.cfg.as_ref().and_then(|v| v.get("underlying"));
+    while let Some(v) = cur {
+        if v.get("k").and_then(|k| k.as_u64()) == Some(0) {
+            return true;
+        }
+        cur = v.get("underlying");
+    }
+    false
+}
+
+/// what the generator knows about the outcome before any search runs: Some(kind) = this error
+fn expected_early_error(kc: &KCase) -> Option<&'static str> {
+    if kc.cfg_ok == Some(false) {
+        return Some("cfgerr");
+    }
+    let c = &kc.base;
+    if !reaches_algorithm(c) {
+        return None;
+    }
+    if inner_target(c).is_none() || c.reverse || effective_k(kc).is_none() {
+        return Some("build");
+    }
+    if let Some(w) = &kc.query_wf_json {
+        if w.as_f64().is_none() {
+            return Some("build");
+        }
+    }
+    None
+}
+
+/// the checks on configuration, direction and query fields, independent of the model; true = the
+/// outcome is fully judged here
+fn oracle_early(ctx: &mut Ctx, idx: usize, kc: &KCase, o: &Outcome) -> bool {
+    let got = match o {
+        Outcome::Err(k) => Some(k.as_str()),
+        Outcome::Ok(_) => None,
+    };
+    if kc.cfg.is_some() {
+        ctx.count(if kc.cfg_ok == Some(false) { "algorithm_from_config_malformed" } else if is_nested(kc) { "algorithm_from_config_nested" } else { "algorithm_from_config" });
+    }
+    if kc.cfg_ok == Some(true) && got == Some("cfgerr") {
+        ctx.fail(idx, "config/valid-algorithm-refused", format!("well-formed [algorithm] section refused: {}", kc.cfg.as_ref().unwrap()));
+        return true;
+    }
+    match expected_early_error(kc) {
+        Some("cfgerr") => {
+            if got != Some("cfgerr") {
+                ctx.fail(idx, "config/malformed-algorithm-accepted", format!("malformed [algorithm] section accepted: {}", kc.cfg.as_ref().unwrap()));
+            }
+            true
+        }
+        Some(kind) => {
+            if got != Some(kind) {
+                let key = if kc.base.reverse && inner_target(&kc.base).is_some() { "ksp/reverse-query-answered" } else { "query/malformed-field-accepted" };
+                ctx.fail(idx, key, format!("expected the '{}' error (no destination / reverse direction / k or weight_factor of the wrong type), got {:?}", kind, got.unwrap_or("a result")));
+            }
+            true
+        }
+        None => {
+            if nested_returns_nothing(kc) {
+                ctx.count("nested_underlying_with_k_0");
+                // Ok without routes, or "no path" through the edge-oriented wrapper
+                let fine = match o {
+                    Outcome::Ok(r) => r.routes.len() <= 1,
+                    Outcome::Err(k) => k == "nopath" || k == "internal" || k.starts_with("terminated"),
+                };
+                if !fine {
+                    ctx.fail(idx, "config/nested-k-0-unexpected", format!("{:?}", got));
+                }
+                return true;
+            }
+            false
+        }
+    }
+}
+
 pub struct KExec {
     pub outcome: Outcome,
     /// popped vertices per run_a_star call (the final pop of a reached target is added by `fix_scheds`)
@@ -118,10 +276,16 @@ pub struct KExec {
 /// run the real KSP algorithm (hooks on).  Only ever called in-process for single-via.
 pub fn exec_ksp(kc: &KCase, b: &Built, sim: &Option<Sim>) -> KExec {
     let c = &kc.base;
-    let alg = make_alg(kc, sim);
+    let alg = match make_alg(kc, sim) {
+        Ok(a) => a,
+        Err(_) => return KExec { outcome: Outcome::Err("cfgerr".into()), scheds: vec![], pops: vec![], runs: 0 },
+    };
     let mut query = b.query.clone();
     if let Some(k) = &kc.query_k {
         query["k"] = k.clone();
+    }
+    if let Some(w) = &kc.query_wf_json {
+        query["weight_factor"] = w.clone();
     }
     let dir = if c.reverse { Direction::Reverse } else { Direction::Forward };
     verif_clock::set(clock_of(&c.term));
@@ -200,9 +364,51 @@ fn fix_scheds_single_via(kc: &KCase, ex: &mut KExec) {
     }
 }
 
+/// the configuration that deserialises to exactly the directly constructed algorithm of the case
+fn direct_cfg_json(kc: &KCase) -> serde_json::Value {
+    let under = match kc.base.astar {
+        None => serde_json::json!({"type": "dijkstra"}),
+        Some(None) => serde_json::json!({"type": "a*"}),
+        Some(Some(w)) => serde_json::json!({"type": "a*", "weight_factor": w}),
+    };
+    let sim = match &kc.sim {
+        None => serde_json::Value::Null,
+        Some(Sim::AcceptAll) => serde_json::json!({"type": "accept_all"}),
+        Some(Sim::EdgeId(t)) => serde_json::json!({"type": "edge_id_cosine_similarity", "threshold": t}),
+        Some(Sim::DistW(t)) => serde_json::json!({"type": "distance_weighted_cosine_similarity", "threshold": t}),
+    };
+    let term = match &kc.term {
+        None => serde_json::Value::Null,
+        Some(KTerm::Exact) => serde_json::json!({"type": "exact"}),
+        Some(KTerm::MaxIt(m)) => serde_json::json!({"type": "max_iteration", "max": m}),
+        Some(KTerm::Factor(f)) => serde_json::json!({"type": "factor", "factor": f}),
+    };
+    serde_json::json!({"type": if kc.yen { "yens" } else { "ksp_single_via" }, "k": kc.k_default, "underlying": under, "similarity": sim, "termination": term})
+}
+
+/// canonical outcome line of a KSP case (`cfgerr`: the configuration did not deserialise)
+pub fn k_outcome_line(o: &Outcome) -> String {
+    match o {
+        Outcome::Err(k) if k == "cfgerr" => "cfgerr".into(),
+        _ => outcome_line(o),
+    }
+}
+
 pub fn encode_k(kc: &KCase, b: &Built, scheds: &[Vec<usize>], pops: &[usize]) -> String {
     let c = &kc.base;
     let mut o: Vec<String> = vec![];
+    if kc.cfg.is_some() || kc.query_wf_json.is_some() {
+        // `cfg <algorithm json> <query weight_factor: n | s json>`: the model derives algorithm, k,
+        // similarity, termination and weight factor from these, not from the header fields
+        let cfg = kc.cfg.clone().unwrap_or_else(|| direct_cfg_json(kc));
+        o.push("cfg".into());
+        o.push(jsonproto::enc(&cfg));
+        match (&kc.query_wf_json, c.query_wf) {
+            (Some(w), _) => o.push(format!("s {}", jsonproto::enc(w))),
+            (None, Some(w)) => o.push(format!("s {}", jsonproto::enc(&serde_json::json!(w)))),
+            (None, None) => o.push("n".into()),
+        }
+    }
     o.push(if kc.yen { "yen".into() } else { "sv".into() });
     o.push(kc.k_default.to_string());
     match &kc.query_k {
@@ -540,7 +746,7 @@ fn base_case(edges: Vec<(usize, usize, f64)>, n_v: usize, source: usize, target:
 }
 
 fn kcase(base: SCase, label: &'static str) -> KCase {
-    KCase { base, yen: false, k_default: 2, query_k: None, sim: None, term: None, style: LenStyle::TieHeavy, bf_ok: true, label }
+    KCase { base, yen: false, k_default: 2, query_k: None, sim: None, term: None, style: LenStyle::TieHeavy, bf_ok: true, label, cfg: None, cfg_ok: None, query_wf_json: None }
 }
 
 /// diamond 0 -> {1, 2} -> 3 (upper branch shorter)
@@ -1029,7 +1235,226 @@ pub fn case_at(seed: u64, quick: bool, k: usize, corpus: &[KCase]) -> KCase {
         3 | 4 => Some(KTerm::MaxIt(rng.below(8) as u64)),
         _ => Some(KTerm::Factor(rng.below(4) as u64)),
     };
-    KCase { base, yen, k_default, query_k, sim, term, style, bf_ok, label: "" }
+    let mut kc = KCase { base, yen, k_default, query_k, sim, term, style, bf_ok, label: "", cfg: None, cfg_ok: None, query_wf_json: None };
+    // a quarter of the cases build the algorithm from its configuration JSON, as the application does
+    if rng.chance(1, 4) {
+        gen_cfg(&mut rng, &mut kc);
+    }
+    if rng.chance(1, 40) {
+        kc.query_wf_json = Some(match rng.below(4) {
+            0 => serde_json::json!("fast"),
+            1 => serde_json::json!(null),
+            2 => serde_json::json!([1.0]),
+            _ => serde_json::json!(true),
+        });
+    }
+    kc
+}
+
+fn sim_json(rng: &mut Rng, s: &Sim) -> serde_json::Value {
+    let seq = rng.chance(1, 8);
+    match s {
+        Sim::AcceptAll => {
+            if seq {
+                serde_json::json!(["accept_all"])
+            } else {
+                serde_json::json!({"type": "accept_all"})
+            }
+        }
+        Sim::EdgeId(t) => {
+            if seq {
+                serde_json::json!(["edge_id_cosine_similarity", t])
+            } else {
+                serde_json::json!({"type": "edge_id_cosine_similarity", "threshold": t})
+            }
+        }
+        Sim::DistW(t) => {
+            if seq {
+                serde_json::json!(["distance_weighted_cosine_similarity", t])
+            } else {
+                serde_json::json!({"threshold": t, "type": "distance_weighted_cosine_similarity", "comment": "ignored"})
+            }
+        }
+    }
+}
+
+fn term_json_k(rng: &mut Rng, t: &KTerm) -> serde_json::Value {
+    let seq = rng.chance(1, 8);
+    match t {
+        KTerm::Exact => {
+            if seq {
+                serde_json::json!(["exact"])
+            } else {
+                serde_json::json!({"type": "exact"})
+            }
+        }
+        KTerm::MaxIt(m) => {
+            if seq {
+                serde_json::json!(["max_iteration", m])
+            } else {
+                serde_json::json!({"type": "max_iteration", "max": m})
+            }
+        }
+        KTerm::Factor(f) => {
+            if seq {
+                serde_json::json!(["factor", f])
+            } else {
+                serde_json::json!({"type": "factor", "factor": f})
+            }
+        }
+    }
+}
+
+fn underlying_json(rng: &mut Rng, c: &SCase) -> serde_json::Value {
+    match c.astar {
+        None => {
+            if rng.chance(1, 8) {
+                serde_json::json!(["dijkstra"])
+            } else {
+                serde_json::json!({"type": "dijkstra"})
+            }
+        }
+        Some(None) => {
+            if rng.chance(1, 2) {
+                serde_json::json!({"type": "a*"})
+            } else {
+                serde_json::json!({"type": "a*", "weight_factor": null})
+            }
+        }
+        Some(Some(w)) => {
+            if rng.chance(1, 8) {
+                serde_json::json!(["a*", w])
+            } else {
+                serde_json::json!({"type": "a*", "weight_factor": w})
+            }
+        }
+    }
+}
+
+/// the configuration JSON of the case's algorithm: a faithful rendering of its fields (object or
+/// sequence form, optional fields absent / null), a nested k-shortest-paths `underlying`, or a
+/// malformed variant
+fn gen_cfg(rng: &mut Rng, kc: &mut KCase) {
+    let tag = if kc.yen { "yens" } else { "ksp_single_via" };
+    let under = underlying_json(rng, &kc.base);
+    let sim = kc.sim.clone().map(|s| sim_json(rng, &s));
+    let term = kc.term.clone().map(|t| term_json_k(rng, &t));
+    let mut obj = serde_json::Map::new();
+    obj.insert("type".into(), serde_json::json!(tag));
+    obj.insert("k".into(), serde_json::json!(kc.k_default));
+    obj.insert("underlying".into(), under.clone());
+    match &sim {
+        Some(v) => {
+            obj.insert("similarity".into(), v.clone());
+        }
+        None => {
+            if rng.chance(1, 2) {
+                obj.insert("similarity".into(), serde_json::Value::Null);
+            }
+        }
+    }
+    match &term {
+        Some(v) => {
+            obj.insert("termination".into(), v.clone());
+        }
+        None => {
+            if rng.chance(1, 2) {
+                obj.insert("termination".into(), serde_json::Value::Null);
+            }
+        }
+    }
+    let mut cfg = serde_json::Value::Object(obj.clone());
+    kc.cfg_ok = Some(true);
+    match rng.below(10) {
+        0 => {
+            // sequence form: tag, k, underlying, similarity, termination
+            cfg = serde_json::json!([tag, kc.k_default, under, sim.clone().unwrap_or(serde_json::Value::Null), term.clone().unwrap_or(serde_json::Value::Null)]);
+        }
+        1 | 2 => {
+            // malformed
+            kc.cfg_ok = Some(false);
+            let mut o = obj.clone();
+            match rng.below(14) {
+                0 => {
+                    o.remove("k");
+                }
+                1 => {
+                    o.remove("underlying");
+                }
+                2 => {
+                    o.remove("type");
+                }
+                3 => {
+                    o.insert("k".into(), serde_json::json!(kc.k_default as f64 + 0.5));
+                }
+                4 => {
+                    o.insert("k".into(), serde_json::json!(-(kc.k_default as i64) - 1));
+                }
+                5 => {
+                    o.insert("k".into(), serde_json::json!(kc.k_default.to_string()));
+                }
+                6 => {
+                    o.insert("type".into(), serde_json::json!(if kc.yen { "Yens" } else { "single_via" }));
+                }
+                7 => {
+                    o.insert("underlying".into(), serde_json::json!("dijkstra"));
+                }
+                8 => {
+                    o.insert("underlying".into(), serde_json::json!({"type": "astar"}));
+                }
+                9 => {
+                    o.insert("similarity".into(), serde_json::json!({"type": "edge_id_cosine_similarity"}));
+                }
+                10 => {
+                    o.insert("similarity".into(), serde_json::json!({"type": "edge_id_cosine_similarity", "threshold": "0.5"}));
+                }
+                11 => {
+                    o.insert("termination".into(), serde_json::json!({"type": "max_iteration", "max": 2.0}));
+                }
+                12 => {
+                    o.insert("termination".into(), serde_json::json!({"type": "factor"}));
+                }
+                _ => {
+                    o.insert("underlying".into(), serde_json::json!({"type": "a*", "weight_factor": "heavy"}));
+                }
+            }
+            cfg = serde_json::Value::Object(o);
+            if rng.chance(1, 6) {
+                cfg = match rng.below(4) {
+                    0 => serde_json::json!(tag),
+                    1 => serde_json::json!([tag, kc.k_default, under]),
+                    2 => serde_json::json!(null),
+                    _ => serde_json::json!([tag, kc.k_default, under, null, null, null]),
+                };
+            }
+        }
+        3 => {
+            // a k-shortest-paths algorithm as `underlying`
+            let inner_k = *rng.pick(&[0usize, 1, 2, 3]);
+            if kc.yen {
+                // (Yen's spur searches through a nested algorithm are not modelled: only the case in
+                // which the nested algorithm returns no route, inner k = 0 and no k in the query)
+                kc.query_k = None;
+                let inner_tag = if rng.chance(1, 2) { "yens" } else { "ksp_single_via" };
+                let mut o = obj.clone();
+                o.insert("underlying".into(), serde_json::json!({"type": inner_tag, "k": 0, "underlying": under}));
+                cfg = serde_json::Value::Object(o);
+            } else {
+                let inner_tag = if rng.chance(1, 2) { "yens" } else { "ksp_single_via" };
+                let mut inner = serde_json::json!({"type": inner_tag, "k": inner_k, "underlying": under});
+                if let Some(v) = &sim {
+                    if rng.chance(1, 2) {
+                        inner["similarity"] = v.clone();
+                    }
+                }
+                let mut o = obj.clone();
+                o.insert("underlying".into(), inner);
+                cfg = serde_json::Value::Object(o);
+            }
+        }
+        _ => {}
+    }
+    kc.cfg = Some(cfg);
 }
 
 // ---------------------------------------------------------------------------------------------
@@ -1137,20 +1562,13 @@ fn run_yen_child(ctx: &mut Ctx, idx: usize, kc: &KCase, stream: Stream) -> Vec<V
     });
     let mut ex = exec_ksp(kc, &b, &kc.sim);
     let diverged = exhausted.load(Ordering::Relaxed);
-    // a run that reached its target ended by popping it, which the hook does not record.  Which runs did
-    // is not visible in the trace any more (a spur search without a path is skipped, not propagated), and
-    // need not be: the model reads a schedule only as far as the run goes, so the final pop is appended
-    // to every run (a run whose source is the target popped nothing and ignores its schedule)
-    let s = inner_source(c);
-    if let Some(t) = inner_target(c) {
-        for (i, sc) in ex.scheds.iter_mut().enumerate() {
-            if !(i == 0 && s == t) {
-                sc.push(t);
-            }
-        }
-    }
-    let line = encode_k(kc, &b, &ex.scheds, &[]);
-    let out = if diverged { "diverges".to_string() } else { outcome_line(&ex.outcome) };
+    // a run that reached its target ended by popping it, which the hook does not record.  For Yen's
+    // searches, which runs did is not visible in the trace (a failed spur search is skipped), and need not
+    // be: the model reads a schedule only as far as the run goes, so the final pop is appended to every
+    // run (a run whose source is the target popped nothing and ignores its schedule)
+    fix_scheds(kc, &mut ex);
+    let line = encode_k(kc, &b, &ex.scheds, &ex.pops);
+    let out = if diverged { "diverges".to_string() } else { k_outcome_line(&ex.outcome) };
     if stream != Stream::C13 {
         // a search property's KSP stream: only runs that return, judged by that property's own oracle
         if diverged {
@@ -1178,6 +1596,9 @@ fn run_yen_child(ctx: &mut Ctx, idx: usize, kc: &KCase, stream: Stream) -> Vec<V
     ctx.emit(idx, line, out.clone());
     describe_k(ctx, kc);
     ctx.count_n("underlying_searches", ex.runs as u64);
+    if !diverged && oracle_early(ctx, idx, kc, &ex.outcome) {
+        return ex.scheds;
+    }
     let k_eff = effective_k(kc);
     let plain_len = plain_route_len(kc, &plain);
     if diverged {
@@ -1719,7 +2140,7 @@ pub fn prop_case_at(s: Stream, seed: u64, quick: bool, j: usize) -> KCase {
         2 => Some(KTerm::Exact),
         _ => Some(KTerm::MaxIt(rng.below(8) as u64)),
     };
-    KCase { base, yen, k_default, query_k: None, sim, term, style, bf_ok: false, label: "" }
+    KCase { base, yen, k_default, query_k: None, sim, term, style, bf_ok: false, label: "", cfg: None, cfg_ok: None, query_wf_json: None }
 }
 
 /// the property's own oracle on what a KSP query returned (`unlimited`: the outcome of the same query
@@ -1733,7 +2154,7 @@ fn apply_prop_oracle(ctx: &mut Ctx, idx: usize, s: Stream, kc: &KCase, b: &Built
             ctx.count("ksp_outcome_ok");
             ctx.count(&format!("ksp_routes_{}", r.routes.len().min(7)));
             if r.routes.len() >= 2 {
-                ctx.nontrivial(&outcome_line(&ex.outcome));
+                ctx.nontrivial(&k_outcome_line(&ex.outcome));
             }
             // what is judged: every route (single-via and, since its repairs, Yen alike); the forward tree
             let judged = SearchAlgorithmResult {
@@ -1787,7 +2208,7 @@ fn oracle_c10_ksp(ctx: &mut Ctx, idx: usize, kc: &KCase, ex: &KExec, unlimited: 
     match &ex.outcome {
         Outcome::Ok(r) => {
             let Some(unl) = unlimited else { return };
-            let lim_line = outcome_line(&ex.outcome);
+            let lim_line = k_outcome_line(&ex.outcome);
             let unl_line = outcome_line(unl);
             if lim_line == unl_line {
                 ctx.count("ksp_limited_equals_unlimited");
@@ -1866,7 +2287,7 @@ fn run_single_via_prop(ctx: &mut Ctx, idx: usize, kc: &KCase, s: Stream) {
         }
     }
     let line = format!("ksp {}", encode_k(kc, &b, &ex.scheds, &ex.pops));
-    ctx.emit(idx, line, outcome_line(&ex.outcome));
+    ctx.emit(idx, line, k_outcome_line(&ex.outcome));
     describe_k(ctx, kc);
     let unlimited = if s == Stream::C10 {
         let mut k2 = kc.clone();
@@ -1907,7 +2328,7 @@ fn run_single_via(ctx: &mut Ctx, idx: usize, kc: &KCase) {
         }
     };
     let mut ex = exec_ksp(kc, &b, &kc.sim);
-    fix_scheds_single_via(kc, &mut ex);
+    fix_scheds(kc, &mut ex);
     if let Outcome::Ok(r) = &ex.outcome {
         if threshold_unstable(kc, r) {
             ctx.count("skipped_threshold_within_1e-9_of_a_rank");
@@ -1915,9 +2336,12 @@ fn run_single_via(ctx: &mut Ctx, idx: usize, kc: &KCase) {
         }
     }
     let line = encode_k(kc, &b, &ex.scheds, &ex.pops);
-    let out = outcome_line(&ex.outcome);
+    let out = k_outcome_line(&ex.outcome);
     ctx.emit(idx, line, out.clone());
     describe_k(ctx, kc);
+    if oracle_early(ctx, idx, kc, &ex.outcome) {
+        return;
+    }
     let k_eff = effective_k(kc);
     // the plain underlying search on the same query: is the query answerable at all?
     let plain = {
@@ -2036,7 +2460,7 @@ pub fn run(ctx: &mut Ctx) -> &'static str {
     for k in 0..total {
         let Some(idx) = ctx.begin() else { continue };
         let kc = case_at(ctx.seed, ctx.quick(), k, &corpus);
-        if kc.yen {
+        if uses_yen(&kc) {
             yen_items.push((idx, kc));
         } else {
             run_single_via(ctx, idx, &kc);
